@@ -41,7 +41,7 @@ def main():
     jobs = 3
     if args and args[0] == '--jobs':
         jobs = int(args[1]); args = args[2:]
-    names = args or sorted(os.path.basename(p) for p in glob.glob(os.path.join(VERIF, 'seeded', 'C*_m*')))
+    names = args or sorted(os.path.basename(p) for p in glob.glob(os.path.join(VERIF, 'seeded', 'C??_*m?')))
     path = os.path.join(VERIF, 'seeded', 'MATRIX.json')
     mat = json.load(open(path)) if os.path.exists(path) else {}
     with ThreadPoolExecutor(jobs) as ex:
